@@ -557,7 +557,9 @@ func (e *vf4Env) consume(consumer, tok string, ctx map[string]string, now int64)
 		r := httptest.NewRequest("POST", "/", nil)
 		r.AddCookie(&http.Cookie{Name: authCookieName, Value: tok})
 		rr := httptest.NewRecorder()
-		_, uerr := st.updateAuthCookieAuthlevel(rr, r, lvl)
+		// the user the request was authenticated as: this stream is about the TOKEN (kind, key, values), so the
+		// caller is whoever the presented token names; whose session may be raised is C05's subject
+		_, uerr := st.updateAuthCookieAuthlevel(rr, r, vf4TokenSubject(tok), lvl)
 		res.sc = vf4HasAuthSetCookie(rr)
 		if uerr != nil {
 			res.dec = "rej " + vf4ErrClass(uerr)
@@ -863,4 +865,20 @@ func TestVerifC04(t *testing.T) {
 			vfBool(same), strings.Join(res.slots[:], ","), hex.EncodeToString(payload), res.extra)
 	}
 	_ = sort.Strings
+}
+
+// vf4TokenSubject: the (unverified) `sub` claim of a compact JWS, or the fixture's user when it cannot be read
+func vf4TokenSubject(tok string) string {
+	parts := strings.Split(tok, ".")
+	if len(parts) == 3 {
+		if raw, err := base64.RawURLEncoding.DecodeString(parts[1]); err == nil {
+			var c struct {
+				Sub string `json:"sub"`
+			}
+			if json.Unmarshal(raw, &c) == nil {
+				return c.Sub
+			}
+		}
+	}
+	return vf4User
 }
